@@ -30,6 +30,24 @@ def _init():
     _W["ncls"] = len(tables["classes"])
     _W["configs"] = {}
     _W["owner"] = {r["id"]: short_owner(r["fixVOwner"]) for r in tables["rules"]}
+    _W["fullowner"] = {r["id"]: r["fixVOwner"] for r in tables["rules"]}
+    _W["modelled_owners"] = modelled_owners()
+
+
+def modelled_owners():
+    """owners listed in lean/VsgModel/Base/Dispatch.lean (string literals starting with vsg.rules.)"""
+    import re
+
+    p = os.path.join(common.LEAN, "VsgModel", "Base")
+    names = set()
+    for f in os.listdir(p):
+        if f.endswith(".lean"):
+            names.update(re.findall(r'"(vsg\.rules\.[A-Za-z0-9_.]+)"', open(os.path.join(p, f), encoding="utf-8").read()))
+    return names
+
+
+def sweep_short(owner):
+    return short_owner(owner)
 
 
 def short_owner(owner):
@@ -212,7 +230,39 @@ def run_job_inner(job):
                 rule.had_violations = had
                 rule.violations = []
 
-    steps, exc, ser = vsgrun.instrumented_fix(o, rl, ci, fix_phase=job.get("fix_phase", 7), skip_phase=job.get("skip_phase"), fix_only=job.get("fix_only"), on_step=on_step)
+    steps, exc, ser = vsgrun.instrumented_fix(o, rl, ci, fix_phase=job.get("fix_phase", 7), skip_phase=job.get("skip_phase"), fix_only=job.get("fix_only"), on_step=on_step, harvest="trace" in feats)
+    if "trace" in feats:
+        # layer B: replay every violation of a modelled `_fix_violation` owner through Lean
+        import bfix
+
+        recs = []
+        pcache = {}
+        for st in steps:
+            if st.kind != "fix" or not st.edits or st.before is None or st.exc is not None:
+                continue
+            owner = _W["fullowner"].get(st.rule)
+            if owner not in _W["modelled_owners"]:
+                out.setdefault("bfix_unmodelled", {})
+                out["bfix_unmodelled"][sweep_short(owner)] = out["bfix_unmodelled"].get(sweep_short(owner), 0) + len(st.edits)
+                continue
+            if st.rule not in pcache:
+                rule = next((r for r in rl.rules if r.unique_id == st.rule), None)
+                pcache[st.rule] = vsgrun.rule_params(rule, ci) if rule is not None else {}
+            # shared / overlapping regions make the per-violation old tokens ambiguous: skip them
+            spans = sorted((e["start"], e["stop"]) for e in st.edits if isinstance(e["start"], int) and isinstance(e["stop"], int))
+            if any(a[1] > b[0] for a, b in zip(spans, spans[1:])):
+                out["bfix_skipped_overlap"] = out.get("bfix_skipped_overlap", 0) + len(st.edits)
+                continue
+            bw = vsgrun.wire(st.before, ci, ser)
+            for e in st.edits:
+                if not isinstance(e["start"], int) or not isinstance(e["stop"], int):
+                    continue
+                recs.append({"owner": owner, "rule": st.rule, "params": pcache[st.rule], "action": e.get("action_data"), "old": bw[e["start"] : e["stop"]], "new": e["new"]})
+        if recs:
+            nm, unm, mism = bfix.replay_records(recs, _W["ncls"])
+            out["bfix_replayed"] = nm
+            for m in mism[:3]:
+                fails.append({"prop": "CORR", "site": sweep_short(m["owner"]), "kind": "bfix-mismatch", "detail": json.dumps(m, default=str)[:1500], "input": describe(job, style, dicts, text)})
     out["tois"] = state["tois"]
     out["idem"] = state["idem"]
     if exc is not None:
@@ -282,7 +332,7 @@ def make_jobs(tier, features=("trace",), limit=None):
 
 
 def aggregate(results):
-    agg = {"runs": 0, "rejected": 0, "steps": 0, "changed_steps": 0, "fired": collections.Counter(), "upd": collections.Counter(), "failures": [], "fail_counts": collections.Counter(), "configs": collections.Counter(), "variants": collections.Counter(), "tokens": 0, "lines": 0, "tois": 0, "idem": 0, "harness_errors": []}
+    agg = {"bfix_replayed": 0, "bfix_unmodelled": collections.Counter(), "bfix_skipped_overlap": 0, "runs": 0, "rejected": 0, "steps": 0, "changed_steps": 0, "fired": collections.Counter(), "upd": collections.Counter(), "failures": [], "fail_counts": collections.Counter(), "configs": collections.Counter(), "variants": collections.Counter(), "tokens": 0, "lines": 0, "tois": 0, "idem": 0, "harness_errors": []}
     seen = set()
     for r in results:
         agg["runs"] += 1
@@ -300,13 +350,16 @@ def aggregate(results):
         agg["lines"] += r.get("lines", 0)
         agg["tois"] += r.get("tois", 0)
         agg["idem"] += r.get("idem", 0)
+        agg["bfix_replayed"] += r.get("bfix_replayed", 0)
+        agg["bfix_skipped_overlap"] += r.get("bfix_skipped_overlap", 0)
+        agg["bfix_unmodelled"].update(r.get("bfix_unmodelled", {}))
         for f in r["failures"]:
             key = (f["prop"], f["site"], f["kind"])
             agg["fail_counts"]["%s|%s|%s" % key] += 1
             if key not in seen:
                 seen.add(key)
                 agg["failures"].append(f)
-    for k in ("fired", "upd", "fail_counts", "configs", "variants"):
+    for k in ("fired", "upd", "fail_counts", "configs", "variants", "bfix_unmodelled"):
         agg[k] = dict(agg[k])
     return agg
 
